@@ -11,7 +11,7 @@ open MdIt.Block.LE
 open MdIt.Lines (LineOffset)
 variable {ρ : Nat → Nat → Prop} {G : Geo}
 
-/-! ## small helpers -/
+/-! (the small helpers of the `LE` file are reused from there) -/
 
 /-! ## `itemRewrite` -/
 
